@@ -256,7 +256,7 @@ def _replay(rec: Dict[str, Any]) -> List[Tuple[str, Dict[str, Any], str]]:
                 break
         if caching and _verif.ENABLED:
             rec["_events"] = normalise(_verif.sink)
-        if not disc and rec["q"] in _noctx:
+        if not disc and rec["q"] in _noctx and (rec.get("_repeat") or sum(h["d"] + h["c"] for h in rec["hist"]) % 3 == 0):
             # after all that, an evaluation that is given no filter context (and one given an empty one) sees none
             try:
                 for d0 in range(len(docs)):
